@@ -67,5 +67,6 @@ BaseAlphabet == {97, 49, 95, 32, 9, 13, 10, 59, 35, 34, 36, 92, 123, 125, 120, 1
                  46, 62, 60, 58, 233, 128512}
 EdgeAlphabet == {0, 11, 127, 160, 1634, 178, 937, 8232, 97, 49, 34, 32, 43, 36, 10, 92}
 \* string-literal alphabet (C15)
-StrAlphabet == {34, 36, 92, 123, 125, 120, 110, 114, 97, 52, 65, 233, 8364, 128512, 10}
+\* (+ and - : a hex escape takes two hex digits, not a signed number; blank)
+StrAlphabet == {34, 36, 92, 123, 125, 120, 110, 114, 97, 52, 65, 233, 8364, 128512, 10, 43, 45, 32}
 =============================================================================
